@@ -38,6 +38,13 @@ pub struct Conf {
     pub ingestion_block: u32,
     pub nranges: u16,
     pub min_cpr_x10: u16,
+    /// MDB_SHARD_GLOBAL_DEDUP_CHUNK_MODULUS (a chunk is eligible for a global dedup query if hash % m == 0)
+    #[serde(default = "default_modulus")]
+    pub global_dedup_modulus: u16,
+}
+
+fn default_modulus() -> u16 {
+    1024
 }
 
 impl Conf {
@@ -62,6 +69,7 @@ impl Conf {
         m.insert("HF_XET_INGESTION_BLOCK_SIZE".into(), self.ingestion_block.max(1).to_string());
         m.insert("HF_XET_NRANGES_IN_STREAMING_FRAGMENTATION_ESTIMATOR".into(), self.nranges.max(2).to_string());
         m.insert("HF_XET_MIN_N_CHUNKS_PER_RANGE".into(), format!("{:.1}", self.min_cpr_x10 as f32 / 10.0));
+        m.insert("HF_XET_MDB_SHARD_GLOBAL_DEDUP_CHUNK_MODULUS".into(), self.global_dedup_modulus.max(1).to_string());
         m
     }
     /// the configuration this process actually runs under (read back from the lazy statics)
@@ -75,6 +83,7 @@ impl Conf {
             ingestion_block: std::env::var("HF_XET_INGESTION_BLOCK_SIZE").ok().and_then(|s| s.parse().ok()).unwrap_or(8 << 20),
             nranges: std::env::var("HF_XET_NRANGES_IN_STREAMING_FRAGMENTATION_ESTIMATOR").ok().and_then(|s| s.parse().ok()).unwrap_or(128),
             min_cpr_x10: std::env::var("HF_XET_MIN_N_CHUNKS_PER_RANGE").ok().and_then(|s| s.parse::<f32>().ok()).map(|v| (v * 10.0) as u16).unwrap_or(80),
+            global_dedup_modulus: std::env::var("HF_XET_MDB_SHARD_GLOBAL_DEDUP_CHUNK_MODULUS").ok().and_then(|s| s.parse().ok()).unwrap_or(1024),
         }
     }
 }
@@ -91,18 +100,21 @@ pub fn conf_strategy(frag_bias: bool) -> impl Strategy<Value = Conf> {
         prop_oneof![2 => Just(2u16), 2 => Just(3u16), 3 => 4u16..16, 3 => 16u16..=64, 1 => Just(1024u16)],
         prop_oneof![1 => Just(1u16), 1 => Just(2u16), 2 => Just(3u16), 3 => Just(8u16), 3 => Just(64u16), 2 => Just(1024u16)],
         prop_oneof![3 => 300u32..5_000, 2 => 5_000u32..200_000, 2 => Just(64u32 << 20)],
-        prop_oneof![1 => Just(1u32), 2 => 2u32..400, 2 => 400u32..8_000, 3 => Just(8u32 << 20)],
+        // ingestion block: 1 byte, small, around the chunk size (x/8 of the target: 0.5 .. 6 targets), or the 8 MiB default
+        prop_oneof![1 => (Just(0u8), Just(1u32)), 2 => (Just(0u8), 2u32..400), 3 => (Just(1u8), 4u32..48), 2 => (Just(0u8), Just(8u32 << 20))],
         nranges,
         prop_oneof![3 => Just(80u16), 2 => Just(20u16), 2 => Just(15u16), 1 => Just(1000u16)],
+        prop_oneof![2 => Just(1u16), 2 => Just(4u16), 3 => Just(1024u16)],
     )
-        .prop_map(|(target_log2, max_xorb_bytes_mult, max_xorb_chunks, shard_min_size, ingestion_block, nranges, min_cpr_x10)| Conf {
+        .prop_map(|(target_log2, max_xorb_bytes_mult, max_xorb_chunks, shard_min_size, ingestion, nranges, min_cpr_x10, global_dedup_modulus)| Conf {
             target_log2,
             max_xorb_bytes_mult,
             max_xorb_chunks,
             shard_min_size,
-            ingestion_block,
+            ingestion_block: if ingestion.0 == 1 { ((1u32 << target_log2) / 8) * ingestion.1 + 1 } else { ingestion.1 },
             nranges,
             min_cpr_x10,
+            global_dedup_modulus,
         })
 }
 
@@ -137,6 +149,10 @@ pub struct SessionSpec {
     pub concurrent: bool,
     /// generated yield counts injected between add_data calls in concurrent mode
     pub yields: Vec<u8>,
+    /// which client machine runs this session: clients share the store but have their own shard
+    /// cache / session directories (so cross-client dedup needs the global-dedup path)
+    #[serde(default)]
+    pub client: u8,
 }
 
 #[derive(Clone, Debug, Serialize, Deserialize, PartialEq)]
@@ -269,8 +285,13 @@ pub fn file_strategy(frag: bool) -> BoxedStrategy<FileSpec> {
 }
 
 pub fn session_strategy(frag: bool, max_files: usize) -> impl Strategy<Value = SessionSpec> {
-    (proptest::collection::vec(file_strategy(frag), 1..=max_files), proptest::bool::weighted(0.35), proptest::collection::vec(0u8..4, 1..6))
-        .prop_map(|(files, concurrent, yields)| SessionSpec { files, concurrent, yields })
+    (
+        proptest::collection::vec(file_strategy(frag), 1..=max_files),
+        proptest::bool::weighted(0.35),
+        proptest::collection::vec(0u8..4, 1..6),
+        prop_oneof![4 => Just(0u8), 1 => Just(1u8), 1 => Just(2u8)],
+    )
+        .prop_map(|(files, concurrent, yields, client)| SessionSpec { files, concurrent, yields, client })
 }
 
 pub fn history_strategy(frag: bool, max_sessions: usize, max_files: usize) -> impl Strategy<Value = History> {
@@ -332,11 +353,24 @@ pub struct TraceClient {
     calls: AtomicU64,
     pub log: Mutex<Vec<Event>>,
     plan: FaultPlan,
+    /// the client's real shard cache directory; the inner local store copies shards into a private
+    /// staging directory and this wrapper publishes them atomically (the production client writes
+    /// shards atomically; the local test store's plain copy would race between concurrent queries)
+    publish_dir: Option<PathBuf>,
+    gd_lock: tokio::sync::Mutex<u64>,
 }
 
 impl TraceClient {
-    pub fn new(inner: LocalClient, plan: FaultPlan) -> Self {
-        TraceClient { inner, seq: AtomicU64::new(0), calls: AtomicU64::new(0), log: Mutex::new(Vec::new()), plan }
+    pub fn new(inner: LocalClient, plan: FaultPlan, publish_dir: Option<PathBuf>) -> Self {
+        TraceClient {
+            inner,
+            seq: AtomicU64::new(0),
+            calls: AtomicU64::new(0),
+            log: Mutex::new(Vec::new()),
+            plan,
+            publish_dir,
+            gd_lock: tokio::sync::Mutex::new(0),
+        }
     }
     fn begin(&self, call: Call, shard: Option<Arc<Vec<u8>>>) -> (usize, bool) {
         let ci = self.calls.fetch_add(1, Ordering::SeqCst) as usize;
@@ -428,7 +462,18 @@ impl FileReconstructor<CasClientError> for TraceClient {
 #[async_trait]
 impl VerifShardDedupProber for TraceClient {
     async fn query_for_global_dedup_shard(&self, prefix: &str, chunk_hash: &MerkleHash, salt: &[u8; 32]) -> Result<Option<PathBuf>, CasClientError> {
-        self.inner.query_for_global_dedup_shard(prefix, chunk_hash, salt).await
+        let mut g = self.gd_lock.lock().await;
+        let r = self.inner.query_for_global_dedup_shard(prefix, chunk_hash, salt).await?;
+        let (Some(staged), Some(dir)) = (r.clone(), self.publish_dir.as_ref()) else { return Ok(r) };
+        let name = staged.file_name().unwrap().to_string_lossy().to_string();
+        let dest = dir.join(&name);
+        if !dest.exists() {
+            *g += 1;
+            let tmp = dir.join(format!(".{name}.publish{}", *g));
+            std::fs::copy(&staged, &tmp)?;
+            std::fs::rename(&tmp, &dest)?;
+        }
+        Ok(Some(dest))
     }
 }
 
@@ -456,22 +501,24 @@ pub fn threadpool() -> Arc<ThreadPool> {
     TP.get_or_init(|| Arc::new(ThreadPool::new().expect("runtime"))).clone()
 }
 
-pub fn make_config(base: &Path, salt: [u8; 32], global_dedup: bool) -> Arc<TranslatorConfig> {
+pub fn make_config(base: &Path, salt: [u8; 32], global_dedup: bool, client: u8) -> Arc<TranslatorConfig> {
     let path = base.join("xet");
     std::fs::create_dir_all(&path).unwrap();
+    let cpath = if client == 0 { path.clone() } else { base.join(format!("client{client}")) };
+    std::fs::create_dir_all(&cpath).unwrap();
     Arc::new(TranslatorConfig {
         data_config: DataConfig {
             endpoint: Endpoint::FileSystem(path.join("xorbs")),
             compression: Default::default(),
             auth: None,
             prefix: "default".into(),
-            cache_config: CacheConfig { cache_directory: path.join("cache"), cache_size: 10 << 30 },
+            cache_config: CacheConfig { cache_directory: cpath.join("cache"), cache_size: 10 << 30 },
             staging_directory: None,
         },
         shard_config: ShardConfig {
             prefix: "default-merkledb".into(),
-            cache_directory: path.join("shard-cache"),
-            session_directory: path.join("shard-session"),
+            cache_directory: cpath.join("shard-cache"),
+            session_directory: cpath.join("shard-session"),
             global_dedup_policy: if global_dedup { GlobalDedupPolicy::Always } else { GlobalDedupPolicy::Never },
             repo_salt: salt,
         },
@@ -501,6 +548,7 @@ pub struct SessionObs {
     pub shards_before: BTreeSet<String>,
     pub shards_after: BTreeSet<String>,
     pub cache_shards_after: BTreeSet<String>,
+    pub client: u8,
 }
 
 pub struct HistoryObs {
@@ -518,8 +566,12 @@ impl HistoryObs {
     pub fn shard_dir(&self) -> PathBuf {
         self.base.path().join("xet/xorbs/shards")
     }
-    pub fn shard_cache_dir(&self) -> PathBuf {
-        self.base.path().join("xet/shard-cache")
+    pub fn shard_cache_dir(&self, client: u8) -> PathBuf {
+        if client == 0 {
+            self.base.path().join("xet/shard-cache")
+        } else {
+            self.base.path().join(format!("client{client}/shard-cache"))
+        }
     }
 }
 
@@ -606,21 +658,27 @@ async fn run_history_async(h: History, mut opts: RunOpts, tp: Arc<ThreadPool>) -
     let base = tempfile::Builder::new().prefix("xvs-").tempdir_in(crate::engine::work_dir()).map_err(|e| format!("[sig:infra] tempdir: {e}"))?;
     let mut salt = [0u8; 32];
     Sm64(h.salt_seed).fill(&mut salt);
-    let config = make_config(base.path(), salt, h.global_dedup);
-    let mut obs = HistoryObs { conf: conf.clone(), sessions: Vec::new(), base, config: config.clone(), salt };
+    let config0 = make_config(base.path(), salt, h.global_dedup, 0);
+    let mut obs = HistoryObs { conf: conf.clone(), sessions: Vec::new(), base, config: config0.clone(), salt };
     let xorb_dir = obs.xorb_dir();
     let shard_dir = obs.shard_dir();
-    let cache_dir = obs.shard_cache_dir();
     for (si, s) in h.sessions.iter().enumerate() {
         let plan = opts.plans.get(&si).cloned().unwrap_or_default();
+        let config = make_config(obs.base.path(), salt, h.global_dedup, s.client);
+        let cache_dir = config.shard_config.cache_directory.clone();
         let store_path = match &config.data_config.endpoint {
             Endpoint::FileSystem(p) => p.clone(),
             _ => unreachable!(),
         };
-        let local = LocalClient::new(&store_path, if h.global_dedup { Some(cache_dir.clone()) } else { None }).map_err(|e| format!("[sig:infra] LocalClient::new: {e}"))?;
+        let staging = obs.base.path().join(format!("staging{si}"));
+        if h.global_dedup {
+            std::fs::create_dir_all(&staging).map_err(|e| format!("[sig:infra] staging: {e}"))?;
+            std::fs::create_dir_all(&cache_dir).map_err(|e| format!("[sig:infra] cache dir: {e}"))?;
+        }
+        let local = LocalClient::new(&store_path, if h.global_dedup { Some(staging.clone()) } else { None }).map_err(|e| format!("[sig:infra] LocalClient::new: {e}"))?;
         let xorbs_before = ls(&xorb_dir);
         let shards_before = ls(&shard_dir);
-        let client = Arc::new(TraceClient::new(local, plan));
+        let client = Arc::new(TraceClient::new(local, plan, if h.global_dedup { Some(cache_dir.clone()) } else { None }));
         let session = FileUploadSession::verif_new_with_client(config.clone(), tp.clone(), client.clone()).await.map_err(|e| format!("[sig:infra] session set-up: {e}"))?;
         // materialise the files
         let mut prepared = Vec::new();
@@ -676,6 +734,7 @@ async fn run_history_async(h: History, mut opts: RunOpts, tp: Arc<ThreadPool>) -
             shards_before,
             shards_after: ls(&shard_dir),
             cache_shards_after: ls(&cache_dir),
+            client: s.client,
         });
         if let Some(cb) = opts.after_session.as_mut() {
             cb(&obs, si)?;
